@@ -9,6 +9,8 @@ import sys
 REPO = os.environ.get("VERIF_REPO", "/repo")
 VERIF = os.path.dirname(os.path.dirname(os.path.abspath(__file__)))
 LIB = os.path.join(REPO, "Lib")
+# where evidence/ and replays/ are written (scratch runs against mutants set VERIF_OUT)
+OUT = os.environ.get("VERIF_OUT", VERIF)
 
 if sys.path[0] != LIB:
     sys.path[:] = [p for p in sys.path if p != LIB]
